@@ -133,15 +133,9 @@ def pyval(v):
 
 
 def int_rep(rng, v):
-    """the integer v as a Python int or as a numpy integer scalar of a type that holds it"""
-    kinds = ["int", "int", "int64", "int32", "intp"]
-    if -2 ** 15 <= v < 2 ** 15:
-        kinds.append("int16")
-    if 0 <= v < 2 ** 8:
-        kinds.append("uint8")
-    if 0 <= v < 2 ** 16:
-        kinds.append("uint16")
-    kind = rng.choice(kinds)
+    """the integer v (a small count) as a Python int or as a numpy integer scalar of at least 32 bits
+    (narrow / unsigned types are left out: correct integer arithmetic on them can overflow or promote)"""
+    kind = rng.choice(["int", "int", "int64", "int32", "intp"])
     return (kind, v) if kind == "int" else (f"np.{kind}", getattr(np, kind)(v))
 
 
@@ -365,7 +359,11 @@ def run(ctx):
                   {"call": "SiteBatch.search", "sites": sites, "nbatch": k, "site": s, "impl": out},
                   ("search", min(n, 4), out is None))
         if s in sites:
-            if out is None or s not in sb[out]:
+            try:
+                inside = out is not None and s in sb[out]
+            except Exception:  # noqa   (a batch number out of range)
+                inside = False
+            if not inside:
                 fail(idx, "C19/search/wrong-batch", f"search({s}) -> {out}")
         elif out is not None:
             fail(idx, "C19/search/phantom", f"search of an unknown site -> {out}")
@@ -438,7 +436,7 @@ def run(ctx):
     # every stored representation of the same numbers / values
     # ---- get_batch: integer arguments in any integer representation; results modified in place by
     #      the caller between calls (a batch handed out must not be shared with a later answer)
-    for _ in range(ctx.scale(150, 1500)):
+    for _ in range(ctx.scale(100, 800)):
         n = rng.randint(1, 40) if rng.random() < 0.8 else rng.randint(41, 400)
         k = rng.randint(1, min(n, 12)) if rng.random() < 0.7 else rng.randint(1, n)
         hist = []
@@ -505,7 +503,7 @@ def run(ctx):
         pre = rng.choice(["", "A", "st_"])
         return nums, [f"{pre}{x}" for x in nums]
 
-    for _ in range(ctx.scale(90, 900)):
+    for _ in range(ctx.scale(90, 600)):
         n = rng.randint(1, 25)
         nums, sites = site_universe(n, rng.random() < 0.4)
         znum = dict(zip(sites, nums))
@@ -829,7 +827,7 @@ def run(ctx):
                 if not step(q):
                     return
 
-    for _ in range(ctx.scale(110, 1500)):
+    for _ in range(ctx.scale(90, 600)):
         try:
             session()
         finally:
